@@ -62,6 +62,10 @@ def gen_source(rng, hazardous=True) -> Src:
 
     def lc(did, depth, same_line=False):
         t = "//" + rng.choice(["", " "]) + comment_text(rng, hazardous)
+        if hazardous and rng.random() < 0.15:
+            # comment markers inside a line comment are plain text (the comment runs to the end of the line)
+            t += rng.choice([" src/*.cpp", " see /* below", " a // b", " end */", " http://x.y/z", " /* closed */ tail"])
+            s.nontrivial = True
         t = t.rstrip()
         if any(c in t for c in HAZ):
             s.nontrivial = True
